@@ -371,8 +371,10 @@ func (s *Session) builtin(st *State, b *ssa.Builtin, c *ssa.CallCommon, args []V
 
 // appendOp models append(s, xs...). The result has a fresh backing array
 // holding the old elements followed by the new ones. In-place growth into spare
-// capacity (which could be visible through another, longer slice of the same
-// array) is NOT modelled: listed as an unchecked assumption in every evidence file.
+// capacity is modelled only where it can be observed within the function: when
+// the operand derives from a reslice x[:n] made in this function (resliceAppends),
+// the operand's array is havocked. Spare capacity shared through slices created
+// elsewhere is NOT modelled: listed as an unchecked assumption in every evidence file.
 func (s *Session) appendOp(st *State, c *ssa.CallCommon, args []Value) Value {
 	sl := s.asTerm(args[0], c.Args[0].Type())
 	et := c.Args[0].Type().Underlying().(*types.Slice).Elem()
@@ -387,6 +389,14 @@ func (s *Session) appendOp(st *State, c *ssa.CallCommon, args []Value) Value {
 		isStr = true
 	}
 	extra = s.asTerm(args[1], c.Args[1].Type())
+	if s.resliceAppends()[c] && !isStr {
+		// name the two slice values: they are nested ite/mkslice terms (reslices) that would otherwise
+		// be repeated in every quantified fact below
+		n1, n2 := s.fresh("apdst", SSlice), s.fresh("apsrc", SSlice)
+		st.assume(Eq(n1, sl))
+		st.assume(Eq(n2, extra))
+		sl, extra = n1, n2
+	}
 	E := s.H(st, k, so)
 	na := s.alloc(st, "arr")
 	newArr := s.fresh("appended", innerSort)
@@ -412,10 +422,30 @@ func (s *Session) appendOp(st *State, c *ssa.CallCommon, args []Value) Value {
 		st.assume(Implies(Eq(addLen, IntLit(1)), Eq(Select(newArr, oldLen), Select(Select(E, SArr(extra)), SIdx(extra, TZero)))))
 	}
 	_ = i
-	s.setH(st, k, so, Store(E, na, newArr))
+	E2 := Store(E, na, newArr)
 	cp := s.fresh("cap", SInt)
 	st.assume(And(Le(newLen, cp), Le(cp, BigLit("1152921504606846976"))))
 	res := MkSlice(na, TZero, newLen, cp)
+	if s.resliceAppends()[c] && !isStr {
+		// The first operand may be a reslice (x[:n]) of a slice that stays visible elsewhere: Go then
+		// appends IN PLACE while the capacity lasts, overwriting elements the longer slice still sees.
+		// Exact model: if newLen <= cap(operand) the operand's own array row is updated (positions
+		// [len, newLen) receive the new elements, read from the state before the call as memmove does,
+		// everything else is unchanged) and the result shares that array; otherwise a fresh copy.
+		s.note(fmt.Sprintf("append at %s: the operand may be a reslice of a live slice: in-place growth is modelled", s.P.pos(c.Pos())))
+		inPlace := Le(newLen, SCap(sl))
+		oldRow := Select(E, SArr(sl))
+		ip := s.fresh("inplace", innerSort)
+		lo := Add(SOff(sl), oldLen)
+		hi := Add(SOff(sl), newLen)
+		st.assume(Term{fmt.Sprintf("(forall ((p!q Int)) (! (=> (or (< p!q %s) (>= p!q %s)) (= (select %s p!q) (select %s p!q))) :pattern ((select %s p!q))))",
+			lo.S, hi.S, ip.S, oldRow.S, ip.S), SBool})
+		st.assume(Term{fmt.Sprintf("(forall ((p!q Int)) (! (=> (and (<= %s p!q) (< p!q %s)) (= (select %s p!q) (select (select %s %s) (+ (soff %s) (- p!q %s))))) :pattern ((select %s p!q))))",
+			lo.S, hi.S, ip.S, E.S, SArr(extra).S, extra.S, lo.S, ip.S), SBool})
+		E2 = Ite(inPlace, Store(E, SArr(sl), ip), E2)
+		res = Ite(inPlace, MkSlice(SArr(sl), SOff(sl), newLen, SCap(sl)), res)
+	}
+	s.setH(st, k, so, E2)
 	// append(nil, <empty>...) is nil
 	return Ite(And(Eq(SArr(sl), TZero), Eq(addLen, TZero)), NilSlice, res)
 }
@@ -557,4 +587,86 @@ func (s *Session) defaultLibContract(callee *ssa.Function, pkg, rel string) *Con
 		}
 	}
 	return &Contract{Pkg: pkg, Func: rel, Flags: map[string]bool{}, Waive: map[string]string{}, File: "package default", Line: 0}
+}
+
+// resliceAppends: the append calls of the function under verification whose first operand may
+// derive from a Slice instruction (x[lo:hi]) — through local variables, phis and earlier appends.
+func (s *Session) resliceAppends() map[*ssa.CallCommon]bool {
+	if s.reslice != nil {
+		return s.reslice
+	}
+	s.reslice = map[*ssa.CallCommon]bool{}
+	tv := map[ssa.Value]bool{}   // tainted values
+	tc := map[*ssa.Alloc]bool{}  // tainted local cells
+	isAppend := func(v ssa.Value) (*ssa.Call, bool) {
+		c, ok := v.(*ssa.Call)
+		if !ok {
+			return nil, false
+		}
+		b, ok := c.Call.Value.(*ssa.Builtin)
+		return c, ok && b.Name() == "append"
+	}
+	var fns []*ssa.Function
+	fns = append(fns, s.fn)
+	for changed := true; changed; {
+		changed = false
+		mark := func(v ssa.Value) {
+			if !tv[v] {
+				tv[v] = true
+				changed = true
+			}
+		}
+		for _, fn := range fns {
+			for _, b := range fn.Blocks {
+				for _, in := range b.Instrs {
+					switch x := in.(type) {
+					case *ssa.Slice:
+						if _, ok := x.X.Type().Underlying().(*types.Slice); ok {
+							mark(x)
+						}
+					case *ssa.Phi:
+						for _, e := range x.Edges {
+							if tv[e] {
+								mark(x)
+							}
+						}
+					case *ssa.UnOp:
+						if a, ok := x.X.(*ssa.Alloc); ok && x.Op == token.MUL && tc[a] {
+							mark(x)
+						}
+					case *ssa.ChangeType:
+						if tv[x.X] {
+							mark(x)
+						}
+					case *ssa.Store:
+						if a, ok := x.Addr.(*ssa.Alloc); ok && tv[x.Val] && !tc[a] {
+							tc[a] = true
+							changed = true
+						}
+					case *ssa.Call:
+						if c, ok := isAppend(x); ok && len(c.Call.Args) > 0 && tv[c.Call.Args[0]] {
+							mark(x)
+						}
+					}
+				}
+			}
+		}
+	}
+	for _, b := range s.fn.Blocks {
+		for _, in := range b.Instrs {
+			if c, ok := isAppend2(in); ok && len(c.Call.Args) > 0 && tv[c.Call.Args[0]] {
+				s.reslice[&c.Call] = true
+			}
+		}
+	}
+	return s.reslice
+}
+
+func isAppend2(in ssa.Instruction) (*ssa.Call, bool) {
+	c, ok := in.(*ssa.Call)
+	if !ok {
+		return nil, false
+	}
+	b, ok := c.Call.Value.(*ssa.Builtin)
+	return c, ok && b.Name() == "append"
 }
